@@ -267,6 +267,23 @@ class SBytes:
                 return i
         return -1
 
+    def split(self, sep=None, maxsplit=-1):
+        if sep is None:
+            raise EngineLimit("whitespace split of a symbolic octet string")
+        p = SBytes._seq(sep)
+        m = _real_len(p)
+        if m == 0:
+            raise ValueError("empty separator")
+        out, pos = [], 0
+        while maxsplit < 0 or _real_len(out) < maxsplit:
+            i = self.find(sep, pos)
+            if i < 0:
+                break
+            out.append(SBytes(self.items[pos:i], self.mutable))
+            pos = i + m
+        out.append(SBytes(self.items[pos:], self.mutable))
+        return out
+
     def index(self, sub, start=0, end=None):
         r = self.find(sub, start, end)
         if r < 0:
